@@ -253,6 +253,257 @@ Proof.
   rewrite IH by (intros; apply H; right; assumption). reflexivity.
 Qed.
 
+(* ---------- permutations given as  map f (seq 0 n)  with an explicit inverse g *)
+Lemma index_of_map_seq (f : nat -> nat) (g : nat -> nat) d : forall len s k,
+  (forall j, (s <= j < s + len)%nat -> f j = d -> j = g d) -> (s <= g d < s + len)%nat -> f (g d) = d ->
+  index_of d (map f (seq s len)) k = Some (k + (g d - s))%nat.
+Proof.
+  induction len as [|len IH]; intros s k Hinj Hr Hf; [lia|]. cbn [seq map index_of].
+  destruct (Nat.eqb (f s) d) eqn:E.
+  - apply Nat.eqb_eq in E. rewrite <- (Hinj s ltac:(lia) E). f_equal. lia.
+  - apply Nat.eqb_neq in E. assert (g d <> s) by (intros C; subst s; contradiction).
+    rewrite IH; [f_equal; lia| |lia|exact Hf]. intros j Hj. apply Hinj. lia.
+Qed.
+
+Lemma all_some_map {A B} (F : A -> option B) (G : A -> B) l : (forall x, In x l -> F x = Some (G x)) -> all_some (map F l) = Some (map G l).
+Proof.
+  induction l as [|x l IH]; intros H; [reflexivity|]. cbn [map all_some]. rewrite (H x) by (left; reflexivity).
+  rewrite IH by (intros; apply H; right; assumption). reflexivity.
+Qed.
+
+Section PermFG.
+  Variables (n : nat) (f g : nat -> nat).
+  Hypothesis Hfg : forall d, (d < n)%nat -> (g d < n)%nat /\ f (g d) = d.
+  Hypothesis Hinj : forall j d, (j < n)%nat -> (d < n)%nat -> f j = d -> j = g d.
+  Hypothesis Hfr : forall k, (k < n)%nat -> (f k < n)%nat.
+  Let p := map f (seq 0 n).
+
+  Lemma p_length : List.length p = n. Proof. unfold p. rewrite map_length, seq_length. reflexivity. Qed.
+
+  Lemma p_index d : (d < n)%nat -> index_of d p 0 = Some (g d).
+  Proof.
+    intros Hd. unfold p. destruct (Hfg d Hd) as [Hg Hf].
+    rewrite (index_of_map_seq f g d n 0 0); [f_equal; lia| |lia|exact Hf].
+    intros j Hj Hfj. apply Hinj; (lia || assumption).
+  Qed.
+
+  Lemma p_is_perm : is_perm p = true.
+  Proof.
+    unfold is_perm. rewrite p_length. apply forallb_forall. intros d Hd. apply in_seq in Hd. rewrite p_index by lia. reflexivity.
+  Qed.
+
+  Lemma perm_src_fg (L : list Z) : List.length L = n ->
+    exists J, perm_src p L = Some J /\ List.length J = n /\ forall d, (d < n)%nat -> nth_error J d = nth_error L (g d).
+  Proof.
+    intros HL. unfold perm_src. rewrite p_length, HL, Nat.eqb_refl, p_is_perm. cbn [andb].
+    exists (map (fun d => nth (g d) L 0) (seq 0 n)).
+    split; [|split].
+    - apply all_some_map. intros d Hd. apply in_seq in Hd. rewrite p_index by lia. cbn [opt_bind].
+      apply nth_error_nth'. rewrite HL. apply (Hfg d). lia.
+    - rewrite map_length, seq_length. reflexivity.
+    - intros d Hd. rewrite nth_error_map, nth_error_seq. replace (d <? n)%nat with true by (symmetry; apply Nat.ltb_lt; exact Hd).
+      cbn [option_map Nat.add]. symmetry. apply nth_error_nth'. rewrite HL. apply (Hfg d). exact Hd.
+  Qed.
+
+  Lemma perm_shape_fg (sh : list Z) : List.length sh = n ->
+    exists sh', perm_shape p sh = Some sh' /\ List.length sh' = n /\ forall k, (k < n)%nat -> nth_error sh' k = nth_error sh (f k).
+  Proof.
+    intros HL. unfold perm_shape. rewrite p_length, HL, Nat.eqb_refl, p_is_perm. cbn [andb].
+    exists (map (fun k => nth (f k) sh 0) (seq 0 n)).
+    split; [|split].
+    - unfold p. rewrite map_map. apply all_some_map. intros k Hk. apply in_seq in Hk.
+      apply nth_error_nth'. rewrite HL. apply Hfr. lia.
+    - rewrite map_length, seq_length. reflexivity.
+    - intros k Hk. rewrite nth_error_map, nth_error_seq. replace (k <? n)%nat with true by (symmetry; apply Nat.ltb_lt; exact Hk).
+      cbn [option_map Nat.add]. symmetry. apply nth_error_nth'. rewrite HL. apply Hfr. exact Hk.
+  Qed.
+End PermFG.
+
+(* the two rotations of _transpose (fix C08-D26) and their inverses *)
+Definition rotf (lo hi : nat) (left : bool) (k : nat) : nat :=
+  if ((k <? lo) || (hi <? k))%nat then k
+  else if left then (if Nat.eqb k hi then lo else S k) else (if Nat.eqb k lo then hi else (k - 1)%nat).
+Definition rotg (lo hi : nat) (left : bool) (d : nat) : nat := rotf lo hi (negb left) d.
+Lemma rot_perm_rotf n lo hi left : rot_perm n lo hi left = map (rotf lo hi left) (seq 0 n).
+Proof. reflexivity. Qed.
+
+Ltac bool_cases :=
+  repeat match goal with
+         | |- context [(?a || ?b)%bool] => let E := fresh "E" in destruct (a || b)%bool eqn:E;
+               [apply orb_true_iff in E; destruct E as [E|E]; [apply Nat.ltb_lt in E|apply Nat.ltb_lt in E]
+               |apply orb_false_iff in E; destruct E as [E E']; apply Nat.ltb_ge in E; apply Nat.ltb_ge in E']
+         end.
+
+Lemma rot_fg n lo hi left : (lo <= hi < n)%nat ->
+  (forall d, (d < n)%nat -> (rotg lo hi left d < n)%nat /\ rotf lo hi left (rotg lo hi left d) = d) /\
+  (forall j d, (j < n)%nat -> (d < n)%nat -> rotf lo hi left j = d -> j = rotg lo hi left d) /\
+  (forall k, (k < n)%nat -> (rotf lo hi left k < n)%nat).
+Proof.
+  intros H. unfold rotg, rotf. destruct left; cbn [negb]; repeat split; intros;
+    repeat match goal with
+           | |- context [if ?c then _ else _] => let E := fresh "E" in destruct c eqn:E
+           | H : context [if ?c then _ else _] |- _ => let E := fresh "E" in destruct c eqn:E
+           end;
+    repeat match goal with
+           | E : (_ || _)%bool = true |- _ => apply orb_true_iff in E; destruct E as [E|E]
+           | E : (_ || _)%bool = false |- _ => apply orb_false_iff in E; destruct E as [? ?]
+           | E : (_ <? _)%nat = true |- _ => apply Nat.ltb_lt in E
+           | E : (_ <? _)%nat = false |- _ => apply Nat.ltb_ge in E
+           | E : Nat.eqb _ _ = true |- _ => apply Nat.eqb_eq in E
+           | E : Nat.eqb _ _ = false |- _ => apply Nat.eqb_neq in E
+           end; lia.
+Qed.
+
+Ltac if_cases :=
+  repeat match goal with
+         | |- context [if ?c then _ else _] =>
+             lazymatch c with
+             | context [if _ then _ else _] => fail
+             | _ => let E := fresh "E" in destruct c eqn:E
+             end
+         end.
+Ltac bool_hyps :=
+  repeat match goal with
+         | E : (_ || _)%bool = true |- _ => apply orb_true_iff in E; destruct E as [E|E]
+         | E : (_ || _)%bool = false |- _ => apply orb_false_iff in E; destruct E as [? ?]
+         | E : (_ <? _)%nat = true |- _ => apply Nat.ltb_lt in E
+         | E : (_ <? _)%nat = false |- _ => apply Nat.ltb_ge in E
+         | E : Nat.eqb _ _ = true |- _ => apply Nat.eqb_eq in E
+         | E : Nat.eqb _ _ = false |- _ => apply Nat.eqb_neq in E
+         end.
+Ltac rot_cases := unfold rotg; cbn [negb]; unfold rotf; if_cases; bool_hyps.
+
+Lemma nth_total {A} (J : list A) n (F : nat -> option A) :
+  List.length J = n -> (forall d, (d < n)%nat -> nth_error J d = F d) ->
+  forall d, nth_error J d = if (d <? n)%nat then F d else None.
+Proof.
+  intros HL H d. destruct (d <? n)%nat eqn:E; [apply Nat.ltb_lt in E; apply H; exact E|].
+  apply Nat.ltb_ge in E. apply nth_error_None. lia.
+Qed.
+
+(* what rot_perm does to a coordinate list / a shape of the right length *)
+Lemma rot_src n lo hi left (L : list Z) : (lo <= hi < n)%nat -> List.length L = n ->
+  exists J, perm_src (rot_perm n lo hi left) L = Some J /\ List.length J = n /\
+            forall d, nth_error J d = if (d <? n)%nat then nth_error L (rotg lo hi left d) else None.
+Proof.
+  intros H HL. destruct (rot_fg n lo hi left H) as [A [B C]]. rewrite rot_perm_rotf.
+  destruct (perm_src_fg n (rotf lo hi left) (rotg lo hi left) A B C L HL) as [J [E [LJ HJ]]].
+  exists J. split; [exact E|]. split; [exact LJ|]. apply nth_total; assumption.
+Qed.
+Lemma rot_shape n lo hi left (sh : list Z) : (lo <= hi < n)%nat -> List.length sh = n ->
+  exists sh', perm_shape (rot_perm n lo hi left) sh = Some sh' /\ List.length sh' = n /\
+              forall k, nth_error sh' k = if (k <? n)%nat then nth_error sh (rotf lo hi left k) else None.
+Proof.
+  intros H HL. destruct (rot_fg n lo hi left H) as [A [B C]]. rewrite rot_perm_rotf.
+  destruct (perm_shape_fg n (rotf lo hi left) (rotg lo hi left) A B C sh HL) as [sh' [E [LJ HJ]]].
+  exists sh'. split; [exact E|]. split; [exact LJ|]. apply nth_total; assumption.
+Qed.
+
+Lemma rot_right_facts (bs : list Z) lo hi : (lo <= hi < List.length bs)%nat ->
+  exists sh', perm_shape (rot_perm (List.length bs) lo hi false) bs = Some sh' /\ List.length sh' = List.length bs.
+Proof. intros H. destruct (rot_shape _ lo hi false bs H eq_refl) as [sh' [E [L _]]]. eauto. Qed.
+Lemma rot_left_facts (bs : list Z) lo hi : (lo <= hi < List.length bs)%nat ->
+  exists sh', perm_shape (rot_perm (List.length bs) lo hi true) bs = Some sh' /\ List.length sh' = List.length bs.
+Proof. intros H. destruct (rot_shape _ lo hi true bs H eq_refl) as [sh' [E [L _]]]. eauto. Qed.
+
+Lemma nth_error_remove_total {A} sd (l : list A) k :
+  nth_error (remove_at sd l) k = if (k <? sd)%nat then nth_error l k else nth_error l (S k).
+Proof. apply nth_error_remove_at. Qed.
+
+(* dim0 is the stack dim, dim1 >= dim0 + 2: members rotated right on [sd, d1-1], new stack dim d1 *)
+Lemma coord_rot_d0 n (I I' : list Z) sd d1 : List.length I = S n -> (sd + 2 <= d1)%nat -> (d1 <= n)%nat ->
+  swap_nth sd d1 I = Some I' ->
+  nth_error I d1 = nth_error I' sd /\ perm_src (rot_perm n sd (d1 - 1) false) (remove_at d1 I) = Some (remove_at sd I').
+Proof.
+  intros HL H1 H2 HS. pose proof (swap_nth_spec _ _ _ _ HS) as [HL' HI']. split.
+  - rewrite HI'. nat_cases; try lia; reflexivity.
+  - destruct (rot_src n sd (d1 - 1) false (remove_at d1 I) ltac:(lia) ltac:(rewrite length_remove_at; lia)) as [J [E [LJ HJ]]].
+    rewrite E. f_equal. apply list_ext. intros d. rewrite HJ, !nth_error_remove_at, !HI'.
+    destruct (d <? n)%nat eqn:Ed; [apply Nat.ltb_lt in Ed|apply Nat.ltb_ge in Ed].
+    + rot_cases; try lia; try reflexivity; f_equal; lia.
+    + nat_cases; try lia; symmetry; apply nth_error_None; lia.
+Qed.
+
+Lemma shape_rot_d0 (bs : list Z) N sd d1 sh' : (sd + 2 <= d1)%nat -> (d1 <= List.length bs)%nat ->
+  perm_shape (rot_perm (List.length bs) sd (d1 - 1) false) bs = Some sh' ->
+  swap_nth sd d1 (insert_at sd N bs) = Some (insert_at d1 N sh').
+Proof.
+  intros H1 H2 E. destruct (rot_shape (List.length bs) sd (d1 - 1) false bs ltac:(lia) eq_refl) as [sh'' [E' [L Hn]]].
+  rewrite E in E'. inversion E'; subst sh''. clear E'.
+  apply swap_eq; try (rewrite insert_at_length by lia; lia).
+  intros k. rewrite !nth_error_insert_at by lia. rewrite !Hn.
+  rot_cases; try lia; try reflexivity; try (f_equal; lia); try (symmetry; apply nth_error_None; lia); apply nth_error_None; lia.
+Qed.
+
+(* dim1 is the stack dim, dim0 <= dim1 - 2: members rotated left on [d0, sd-1], new stack dim d0 *)
+Lemma coord_rot_d1 n (I I' : list Z) d0 sd : List.length I = S n -> (d0 + 2 <= sd)%nat -> (sd <= n)%nat ->
+  swap_nth d0 sd I = Some I' ->
+  nth_error I d0 = nth_error I' sd /\ perm_src (rot_perm n d0 (sd - 1) true) (remove_at d0 I) = Some (remove_at sd I').
+Proof.
+  intros HL H1 H2 HS. pose proof (swap_nth_spec _ _ _ _ HS) as [HL' HI']. split.
+  - rewrite HI'. nat_cases; try lia; reflexivity.
+  - destruct (rot_src n d0 (sd - 1) true (remove_at d0 I) ltac:(lia) ltac:(rewrite length_remove_at; lia)) as [J [E [LJ HJ]]].
+    rewrite E. f_equal. apply list_ext. intros d. rewrite HJ, !nth_error_remove_at, !HI'.
+    destruct (d <? n)%nat eqn:Ed; [apply Nat.ltb_lt in Ed|apply Nat.ltb_ge in Ed].
+    + rot_cases; try lia; try reflexivity; f_equal; lia.
+    + nat_cases; try lia; symmetry; apply nth_error_None; lia.
+Qed.
+
+Lemma shape_rot_d1 (bs : list Z) N d0 sd sh' : (d0 + 2 <= sd)%nat -> (sd <= List.length bs)%nat ->
+  perm_shape (rot_perm (List.length bs) d0 (sd - 1) true) bs = Some sh' ->
+  swap_nth d0 sd (insert_at sd N bs) = Some (insert_at d0 N sh').
+Proof.
+  intros H1 H2 E. destruct (rot_shape (List.length bs) d0 (sd - 1) true bs ltac:(lia) eq_refl) as [sh'' [E' [L Hn]]].
+  rewrite E in E'. inversion E'; subst sh''. clear E'.
+  apply swap_eq; try (rewrite insert_at_length by lia; lia).
+  intros k. rewrite !nth_error_insert_at by lia. rewrite !Hn.
+  rot_cases; try lia; try reflexivity; try (f_equal; lia); try (symmetry; apply nth_error_None; lia); apply nth_error_None; lia.
+Qed.
+
+Lemma at_perm p x I : at_ (Perm p x) I = opt_bind (perm_src p I) (at_ x).
+Proof. reflexivity. Qed.
+
+Section StackPerm.
+  Variables (sd : nat) (bs0 : list Z) (parts : list arr) (bs : list Z).
+  Hypothesis Hne : parts <> [].
+  Hypothesis Hshape : Forall (fun p => shape_of p = Some bs) parts.
+  Hypothesis Hsd : (sd <= List.length bs)%nat.
+  Let self := Stack sd bs0 parts.
+  Let shape := insert_at sd (lenZ parts) bs.
+  Let rank := S (List.length bs).
+
+  Lemma stack_perm_equiv nsd p d0 d1 :
+    (d0 < rank)%nat -> (d1 < rank)%nat -> (nsd <= List.length bs)%nat ->
+    (exists sh', perm_shape p bs = Some sh' /\ List.length sh' = List.length bs) ->
+    (forall (I I' : list Z), List.length I = rank -> swap_nth d0 d1 I = Some I' ->
+       nth_error I nsd = nth_error I' sd /\ perm_src p (remove_at nsd I) = Some (remove_at sd I')) ->
+    (forall sh', perm_shape p bs = Some sh' -> swap_nth d0 d1 shape = Some (insert_at nsd (lenZ parts) sh')) ->
+    equiv_in (Stack nsd bs0 (map (fun m => Perm p m) parts)) (Transp d0 d1 self).
+  Proof.
+    intros Hd0 Hd1 Hnsd [sh' [Esh' Hsh'len]] Hcoord Hshp.
+    assert (Hself : shape_of self = Some shape) by (apply shape_of_stack; assumption).
+    assert (HshapeT : Forall (fun q => shape_of q = Some sh') (map (fun m => Perm p m) parts)).
+    { apply Forall_forall. intros q Hq. apply in_map_iff in Hq. destruct Hq as [m [Em Hm]]. subst q.
+      cbn [shape_of]. rewrite (proj1 (Forall_forall _ _) Hshape m Hm). exact Esh'. }
+    assert (HneT : map (fun m => Perm p m) parts <> []) by (destruct parts; [congruence|discriminate]).
+    split.
+    - rewrite (shape_of_stack nsd bs0 _ sh' HneT HshapeT) by lia.
+      cbn [shape_of]. fold self. rewrite Hself. cbn [opt_bind].
+      rewrite (Hshp sh' Esh'). unfold lenZ. rewrite map_length. reflexivity.
+    - intros sh I Hsh Hin.
+      cbn [shape_of] in Hsh. fold self in Hsh. rewrite Hself in Hsh. cbn [opt_bind] in Hsh.
+      pose proof (in_range_length _ _ Hin) as HL.
+      assert (HLI : List.length I = rank).
+      { rewrite HL. rewrite (proj1 (swap_nth_spec _ _ _ _ Hsh)). unfold shape. rewrite insert_at_length by exact Hsd. reflexivity. }
+      rewrite at_transp. destruct (swap_nth_some d0 d1 I ltac:(lia) ltac:(lia)) as [I' EI']. rewrite EI'. cbn [opt_bind].
+      destruct (Hcoord I I' HLI EI') as [Hk Hrem].
+      rewrite at_stack. unfold self. rewrite at_stack. rewrite Hk.
+      destruct (nth_error I' sd) as [k|]; [|reflexivity].
+      rewrite nthZ_map. destruct (nthZ parts k) as [m|]; [|reflexivity]. cbn [option_map].
+      rewrite at_perm, Hrem. reflexivity.
+  Qed.
+End StackPerm.
+
 Section TransposeThm.
   Variables (sd : nat) (bs0 : list Z) (parts : list arr) (bs : list Z).
   Hypothesis Hne : parts <> [].
@@ -283,14 +534,14 @@ Section TransposeThm.
       rewrite at_stack. unfold self. rewrite at_stack. rewrite Hk, Hrem. reflexivity.
   Qed.
 
-  (* lazy.transpose(d0, d1) = dense.transpose(d0, d1) outside the D26 region *)
-  Theorem transpose_partial fuel d0 d1 a' :
+  (* lazy.transpose(d0, d1) = dense.transpose(d0, d1): every rank, every stack dim, every pair of dims
+     (after fix C08-D26 the members are permuted when the stack dim is one of two non-adjacent dims) *)
+  Theorem transpose_full fuel d0 d1 a' :
     (d0 < d1 < rank)%nat ->
-    negb ((Nat.eqb d0 sd && (d0 + 3 <=? d1)%nat) || (Nat.eqb d1 sd && (d0 + 2 <=? d1)%nat)) = true ->
     lz_transpose (S fuel) self (Z.of_nat d0) (Z.of_nat d1) = Ok a' ->
     equiv_in a' (Transp d0 d1 self).
   Proof.
-    intros Hd Hreg H. cbn [lz_transpose] in H. fold self in H. unfold self in H.
+    intros Hd H. cbn [lz_transpose] in H. fold self in H. unfold self in H.
     rewrite (shape_of_stack sd bs0 parts bs Hne Hshape Hsd) in H.
     rewrite insert_at_length in H by exact Hsd. fold rank in H.
     unfold norm_dim in H.
@@ -302,35 +553,43 @@ Section TransposeThm.
     replace (Nat.eqb d0 d1) with false in H by (symmetry; apply Nat.eqb_neq; lia).
     unfold fixed_D26 in H. cbn [andb] in H. unfold lz_transpose_plan in H.
     destruct (Nat.eqb d0 sd) eqn:E0.
-    - apply Nat.eqb_eq in E0. subst d0.
-      destruct (Nat.eqb d1 (S sd)) eqn:E1.
-      + apply Nat.eqb_eq in E1. inversion H; subst a'. clear H.
-        apply stack_restack_equiv; try (unfold rank in *; lia).
-        * intros I I' HL HS. destruct (coord_adjacent rank I I' sd d1 HL Hd HS E1) as [A [B _]]. split; assumption.
-        * apply (proj1 (shape_adjacent bs (lenZ parts) sd d1 Hd E1)).
-      + apply Nat.eqb_neq in E1.
-        assert (Ed : d1 = (sd + 2)%nat).
-        { destruct (sd + 3 <=? d1)%nat eqn:E3; [cbn in Hreg; discriminate|]. apply Nat.leb_gt in E3. lia. }
-        replace (d1 - 1)%nat with (sd + 1)%nat in H by lia.
-        rewrite (rmap_map_ok _ (fun m => Transp sd (sd + 1) m)) in H.
-        2:{ intros m Hm. rewrite (proj1 (Forall_forall _ _) Hplain m Hm), (proj1 (Forall_forall _ _) Hshape m Hm).
-            replace ((sd <? List.length bs) && (sd + 1 <? List.length bs))%nat with true
-              by (symmetry; apply andb_true_intro; split; apply Nat.ltb_lt; unfold rank in Hd; lia).
-            replace (Nat.eqb sd (sd + 1)) with false by (symmetry; apply Nat.eqb_neq; lia). reflexivity. }
-        cbn [rbind] in H. inversion H; subst a'. clear H.
-        apply (stack_transp_equiv sd bs0 parts bs Hne Hshape Hplain Hsd d1 sd (sd + 1)%nat sd d1); try (unfold rank in *; lia).
-        * intros I I' HL HS. apply (coord_d0_two rank I I' sd d1 HL Hd HS Ed).
-        * intros sh' Esh'. apply (shape_d0_two bs (lenZ parts) sd d1 Hd sh' Ed Esh').
-    - apply Nat.eqb_neq in E0. destruct (Nat.eqb d1 sd) eqn:E1.
-      + apply Nat.eqb_eq in E1. subst d1.
-        assert (Ed : sd = S d0).
-        { destruct (d0 + 2 <=? sd)%nat eqn:E3; [cbn in Hreg; discriminate|]. apply Nat.leb_gt in E3. lia. }
-        replace (Nat.eqb (S d0) sd) with true in H by (symmetry; apply Nat.eqb_eq; lia).
+    - apply Nat.eqb_eq in E0. subst d0. cbn [orb] in H.
+      destruct (Nat.eqb (S sd) d1) eqn:E1.
+      + apply Nat.eqb_eq in E1. cbn [negb] in H.
+        replace (Nat.eqb d1 (S sd)) with true in H by (symmetry; apply Nat.eqb_eq; lia).
         inversion H; subst a'. clear H.
         apply stack_restack_equiv; try (unfold rank in *; lia).
-        * intros I I' HL HS. destruct (coord_adjacent rank I I' d0 sd HL Hd HS Ed) as [_ [_ [A B]]]. split; assumption.
-        * apply (proj2 (shape_adjacent bs (lenZ parts) d0 sd Hd Ed)).
-      + apply Nat.eqb_neq in E1.
+        * intros I I' HL HS. destruct (coord_adjacent rank I I' sd d1 HL Hd HS ltac:(lia)) as [A [B _]]. split; assumption.
+        * apply (proj1 (shape_adjacent bs (lenZ parts) sd d1 Hd ltac:(lia))).
+      + apply Nat.eqb_neq in E1. cbn [negb] in H.
+        rewrite (rmap_map_ok _ (fun m => Perm (rot_perm (rank - 1) sd (d1 - 1) false) m)) in H by (intros; reflexivity).
+        cbn [rbind] in H. inversion H; subst a'. clear H.
+        apply (stack_perm_equiv sd bs0 parts bs Hne Hshape Hsd d1 (rot_perm (rank - 1) sd (d1 - 1) false) sd d1); try (unfold rank in *; lia).
+        * replace (rank - 1)%nat with (List.length bs) by (unfold rank; lia).
+          apply (rot_right_facts bs sd (d1 - 1)); unfold rank in Hd; lia.
+        * intros I I' HL HS. replace (rank - 1)%nat with (List.length bs) by (unfold rank; lia).
+          apply (coord_rot_d0 (List.length bs) I I' sd d1); unfold rank in *; try lia; assumption.
+        * intros sh' Hsh'. replace (rank - 1)%nat with (List.length bs) in Hsh' by (unfold rank; lia).
+          apply (shape_rot_d0 bs (lenZ parts) sd d1 sh'); unfold rank in *; try lia; assumption.
+    - apply Nat.eqb_neq in E0. destruct (Nat.eqb d1 sd) eqn:E1.
+      + apply Nat.eqb_eq in E1. subst d1. cbn [orb] in H.
+        destruct (Nat.eqb (S d0) sd) eqn:E2.
+        * apply Nat.eqb_eq in E2. cbn [negb] in H.
+          inversion H; subst a'. clear H.
+          apply stack_restack_equiv; try (unfold rank in *; lia).
+          -- intros I I' HL HS. destruct (coord_adjacent rank I I' d0 sd HL Hd HS ltac:(lia)) as [_ [_ [A B]]]. split; assumption.
+          -- apply (proj2 (shape_adjacent bs (lenZ parts) d0 sd Hd ltac:(lia))).
+        * apply Nat.eqb_neq in E2. cbn [negb] in H.
+          rewrite (rmap_map_ok _ (fun m => Perm (rot_perm (rank - 1) d0 (sd - 1) true) m)) in H by (intros; reflexivity).
+          cbn [rbind] in H. inversion H; subst a'. clear H.
+          apply (stack_perm_equiv sd bs0 parts bs Hne Hshape Hsd d0 (rot_perm (rank - 1) d0 (sd - 1) true) d0 sd); try (unfold rank in *; lia).
+          -- replace (rank - 1)%nat with (List.length bs) by (unfold rank; lia).
+             apply (rot_left_facts bs d0 (sd - 1)); unfold rank in Hd; lia.
+          -- intros I I' HL HS. replace (rank - 1)%nat with (List.length bs) by (unfold rank; lia).
+             apply (coord_rot_d1 (List.length bs) I I' d0 sd); unfold rank in *; try lia; assumption.
+          -- intros sh' Hsh'. replace (rank - 1)%nat with (List.length bs) in Hsh' by (unfold rank; lia).
+             apply (shape_rot_d1 bs (lenZ parts) d0 sd sh'); unfold rank in *; try lia; assumption.
+      + apply Nat.eqb_neq in E1. cbn [orb andb] in H.
         set (a0 := if (d0 <? sd)%nat then d0 else (d0 - 1)%nat) in *.
         set (a1 := if (d1 <? sd)%nat then d1 else (d1 - 1)%nat) in *.
         assert (Ha : (a0 < a1 < List.length bs)%nat) by (subst a0 a1; unfold rank in Hd; nat_cases; lia).
@@ -345,20 +604,6 @@ Section TransposeThm.
         * intros sh' Esh'. apply (shape_other bs (lenZ parts) d0 d1 Hd sd sh'); try lia. exact Esh'.
   Qed.
 End TransposeThm.
-
-(* D26: the statement without the exclusion is false of the model of today's code *)
-Definition d26_witness : arr :=
-  Stack 0 [2; 3; 1] [Leaf 0 [2; 3; 1]; Leaf 1 [2; 3; 1]].
-Theorem transpose_refuted :
-  exists self d0 d1 a', wf_tree self [2; 2; 3; 1] /\ lz_transpose 3 self d0 d1 = Ok a' /\
-                        shape_of a' <> shape_of (Transp (Z.to_nat d0) (Z.to_nat d1) self).
-Proof.
-  exists d26_witness, 0, 3. eexists. split; [|split].
-  - apply (wf_stack 0 [2; 3; 1] [Leaf 0 [2; 3; 1]; Leaf 1 [2; 3; 1]] [2; 3; 1]); [discriminate| |cbn; lia].
-    wf_lit.
-  - vm_compute. reflexivity.
-  - vm_compute. discriminate.
-Qed.
 
 (* ---------- unsqueeze *)
 Lemma insert_insert_comm (bs : list Z) sd d n : (sd <= List.length bs)%nat -> (d <= S (List.length bs))%nat ->
